@@ -204,9 +204,16 @@ func (s *controllingSelector) HandleSuccessResponse(
 		// If this is a renomination request (has nomination value), always update the selected pair
 		// If it's a standard nomination (no value), only set if no pair is selected yet
 		if pendingRequest.nominationValue != nil {
-			s.log.Infof("Renomination success response received for pair %s (nomination value: %d), switching to this pair",
-				pair, *pendingRequest.nominationValue)
-			s.agent.setSelectedPair(pair)
+			// Responses may arrive out of order: a response to a renomination that has been superseded by a
+			// later (higher) one must not move the selection back, the controlled side keeps the latest.
+			if *pendingRequest.nominationValue < s.agent.latestRenominationValue {
+				s.log.Debugf("Ignoring success response for superseded renomination %d on pair %s (latest issued: %d)",
+					*pendingRequest.nominationValue, pair, s.agent.latestRenominationValue)
+			} else {
+				s.log.Infof("Renomination success response received for pair %s (nomination value: %d), switching to this pair",
+					pair, *pendingRequest.nominationValue)
+				s.agent.setSelectedPair(pair)
+			}
 		} else if selectedPair == nil {
 			s.agent.setSelectedPair(pair)
 		}
